@@ -90,8 +90,8 @@ impl Property for C07 {
     }
     fn cases(&self, tier: Tier) -> usize {
         match tier {
-            Tier::Quick => 3000,
-            Tier::Thorough => 60000,
+            Tier::Quick => 12000,
+            Tier::Thorough => 72000,
         }
     }
     fn tape_len(&self, _t: Tier) -> usize {
@@ -128,8 +128,8 @@ impl Property for C12 {
     }
     fn cases(&self, tier: Tier) -> usize {
         match tier {
-            Tier::Quick => 3000,
-            Tier::Thorough => 60000,
+            Tier::Quick => 12000,
+            Tier::Thorough => 72000,
         }
     }
     fn tape_len(&self, _t: Tier) -> usize {
@@ -170,8 +170,8 @@ impl Property for C11 {
     }
     fn cases(&self, tier: Tier) -> usize {
         match tier {
-            Tier::Quick => 3000,
-            Tier::Thorough => 60000,
+            Tier::Quick => 12000,
+            Tier::Thorough => 72000,
         }
     }
     fn tape_len(&self, _t: Tier) -> usize {
@@ -280,8 +280,8 @@ impl Property for C14 {
     }
     fn cases(&self, tier: Tier) -> usize {
         match tier {
-            Tier::Quick => 4000,
-            Tier::Thorough => 80000,
+            Tier::Quick => 16000,
+            Tier::Thorough => 96000,
         }
     }
     fn tape_len(&self, _t: Tier) -> usize {
